@@ -289,7 +289,7 @@ func concRound(r *ev.Run, seed int64, prof profile) bool {
 	rng := rand.New(rand.NewSource(seed))
 	rand.Seed(seed)
 	g := newGen(rng, prof)
-	w := newWorld()
+	w := newWorld(nil)
 	p := newProber(g, rng)
 	defer func() {
 		for k, v := range w.cnt {
@@ -461,6 +461,122 @@ func concRound(r *ev.Run, seed int64, prof profile) bool {
 		}
 		w.count("conc_write_ops", int64(len(hl.ops)))
 		r.Count("conc_rounds_free_running_writer", 1)
+	}
+
+	// ---- family 3: three parties: a put stream on the lower half of the key space || a stream of cache
+	// drops on the upper half || readers. (BasicCluster is shared by the region syncer and the
+	// RaftCluster; its own lock is all that orders these writers.) The halves are disjoint in keys
+	// and ids, so the state after i puts and j drops is the union of the two halves' states. ----
+	if srt := w.m.sorted(); len(srt) >= 8 {
+		cut := srt[len(srt)/2].spec.Start
+		var lower, upper []*entry
+		clean := cut != ""
+		for _, e := range srt {
+			switch {
+			case e.spec.End != "" && e.spec.End <= cut:
+				lower = append(lower, e)
+			case e.spec.Start >= cut:
+				upper = append(upper, e)
+			default:
+				clean = false
+			}
+		}
+		pos := 0
+		for pos < len(g.keys) && g.keys[pos] < cut {
+			pos++
+		}
+		if clean && pos >= 3 && len(upper) >= 3 {
+			gA := &gen{rng: rng, prof: prof, keys: g.keys[:pos], endKey: cut, banned: map[uint64]bool{}, noClone: true, noStale: true,
+				epoch: g.epoch, peerN: g.peerN + 1<<20}
+			gA.prof.MacroEach = 0
+			for _, e := range upper {
+				gA.banned[e.spec.ID] = true
+			}
+			scratchA := &model{version: 1, es: append([]*entry(nil), lower...), sinfo: map[uint64]storeStat{}}
+			snaps := [][]*entry{append([]*entry(nil), scratchA.es...)}
+			la := &lane{}
+			for len(la.ops) < r.Pick(120, 300) {
+				for _, o := range gA.nextOps(scratchA) {
+					o := o
+					switch o.Kind {
+					case "set":
+						info := o.Spec.build(nil)
+						scratchA.set(&entry{spec: o.Spec, info: info})
+						api := o.API
+						la.ops = append(la.ops, &laneOp{Desc: "put " + o.Spec.String() + " " + api, do: func() {
+							if api == "check" {
+								if got := w.bc.CheckAndPutRegion(info); len(got) == 1 && got[0] == info {
+									atomic.AddInt32(&rejected, 1)
+								}
+								return
+							}
+							w.bc.PutRegion(info)
+						}})
+					case "remove":
+						if scratchA.get(o.ID) == nil {
+							continue
+						}
+						scratchA.remove(o.ID)
+						id := o.ID
+						la.ops = append(la.ops, &laneOp{Desc: fmt.Sprintf("remove r%d", id), do: func() {
+							if cur := w.bc.GetRegion(id); cur != nil {
+								w.bc.RemoveRegion(cur)
+							}
+						}})
+					}
+					snaps = append(snaps, append([]*entry(nil), scratchA.es...))
+				}
+			}
+			g.epoch = gA.epoch
+			lb := &lane{}
+			order := rng.Perm(len(upper))
+			var dropped []uint64
+			for _, i := range order[:len(order)*4/5] {
+				id := upper[i].spec.ID
+				dropped = append(dropped, id)
+				lb.ops = append(lb.ops, &laneOp{Desc: fmt.Sprintf("drop cache region r%d", id), do: func() {
+					if region := w.bc.GetRegion(id); region != nil {
+						w.bc.RemoveRegion(region)
+					}
+				}})
+			}
+			sinfo := w.m.sinfo
+			memo3 := map[[2]int]*model{}
+			state3 := func(idx []int) *model {
+				k := [2]int{idx[0], idx[1]}
+				if m, ok := memo3[k]; ok {
+					return m
+				}
+				gone := map[uint64]bool{}
+				for _, id := range dropped[:idx[1]] {
+					gone[id] = true
+				}
+				m := &model{version: 1, sinfo: sinfo, es: append([]*entry(nil), snaps[idx[0]]...)}
+				for _, e := range upper {
+					if !gone[e.spec.ID] {
+						m.es = append(m.es, e)
+					}
+				}
+				memo3[k] = m
+				return m
+			}
+			lanes3 := []*lane{la, lb}
+			reads = concRun(w, lanes3, nReaders, mk, seed+3, r.Pick(900, 2500), true)
+			if rejected > 0 {
+				r.Inconclusive("concurrent round %d: %d puts with a fresh epoch were rejected as stale (harness expectation broken)", seed, rejected)
+				return false
+			}
+			if !judgeReads(r, w, "put-stream-drop-stream-readers", seed, prof, lanes3, reads, state3) {
+				return false
+			}
+			w.m = state3([]int{len(la.ops), len(lb.ops)}).snapshot()
+			if !quiescent(r, w, p, "put-stream-drop-stream-readers", seed, prof, lanes3) {
+				return false
+			}
+			w.count("conc_write_ops", int64(len(la.ops)))
+			w.count("conc_drop_ops", int64(len(lb.ops)))
+			r.Count("conc_rounds_put_drop_readers", 1)
+		}
 	}
 
 	// ---- family 2: two concurrent streams of cache drops || readers ----
